@@ -1,8 +1,10 @@
 (** C03: every successful edit leaves a well-formed tree; enumerations agree. *)
 From Coq Require Import String ZArith QArith Bool Arith Permutation List.
-From GT Require Import Base.UTree Proofs.Enum.
+From GT Require Import Base.UTree Model.Reroot Model.History Model.Newick Model.NewickNum Spec.Obs Spec.NewickSpec
+     Proofs.Enum Proofs.Unroot Proofs.History.
 Import ListNotations.
 Local Close Scope Q_scope.
+Local Open Scope string_scope.
 
 (** branches = nodes - 1 *)
 Theorem C03_edges_nodes : forall t, wf t = true -> length (edges t) + 1 = length (nodes t).
@@ -27,3 +29,141 @@ Theorem C03_tip_edges_tips : forall t, wf t = true -> is_tip t = false ->
   length (tip_edges t) = length (tips t).
 Proof. exact tip_edges_tips. Qed.
 Print Assumptions C03_tip_edges_tips.
+
+(** * Histories of edits on one tree object
+
+    [op], [run_op], [run_step], [run]: Model/History.v -- the 19 public editing operations
+    (reroot, unroot, reroot on an outgroup, midpoint, rotate, sort, prune, collapse by length /
+    support / depth, resolve, remove single nodes, graft, insert identical tips, merge, NNI apply
+    (undo), rename, clone, subtree), each dispatching to the model that is compared with the Go
+    code after every step of every history by Judge/C03.v; a step optionally starts with
+    ReinitIndexes; a history stops at the first refusal.
+
+    [side s t] (Proofs/History.v): what the lemma of the operation of step [s] needs beyond
+    [wf t] -- nothing for reroot, unroot, rotate, sort, the three collapses, resolve, remove single
+    nodes, NNI, rename, clone, subtree; well-formed argument trees for graft and merge; root with
+    at least two neighbours for outgroup (plus distinct tip names when the outgroup is removed),
+    midpoint (plus: not the two-tip tree), prune (plus: no single-child inner node -- the
+    proviso of the property -- and distinct tip names) and insert (plus: no empty tip name).
+    Distinct tip names follow from the success of ReinitIndexes at the start of the step.
+    [sides ops t0]: [side] holds at every state the history goes through. *)
+
+(** one step *)
+Theorem C03_step : forall s t t',
+  wf t = true -> side s t -> run_step s t = Ok t' -> wf t' = true.
+Proof. exact run_step_wf. Qed.
+Print Assumptions C03_step.
+
+(** any history: by induction on the list of operations *)
+Theorem C03_history : forall ops t0 t,
+  wf t0 = true -> sides ops t0 -> run ops t0 = Ok t -> wf t = true.
+Proof. exact history_wf. Qed.
+Print Assumptions C03_history.
+
+(** every intermediate state too *)
+Theorem C03_history_prefix : forall ops1 ops2 t0 t,
+  wf t0 = true -> sides (ops1 ++ ops2) t0 -> run (ops1 ++ ops2) t0 = Ok t ->
+  exists t1, run ops1 t0 = Ok t1 /\ wf t1 = true /\ run ops2 t1 = Ok t.
+Proof. exact history_prefix_wf. Qed.
+Print Assumptions C03_history_prefix.
+
+(** no side condition at all for histories over reroot, unroot, rotate, sort, collapse by length /
+    support / depth, resolve, remove single nodes, NNI apply/undo, rename, clone, subtree *)
+Theorem C03_history_unconditional : forall ops t0 t,
+  Forall (fun s => unconditional (snd s) = true) ops ->
+  wf t0 = true -> run ops t0 = Ok t -> wf t = true.
+Proof. exact history_wf_unconditional. Qed.
+Print Assumptions C03_history_unconditional.
+
+(** the side conditions are decidable: [sides_b] (Model/History.v) *)
+Theorem C03_sides_decidable : forall ops t, sides_b ops t = true -> sides ops t.
+Proof. exact sides_b_sound. Qed.
+Print Assumptions C03_sides_decidable.
+
+Theorem C03_history_decidable : forall ops t0 t,
+  wf t0 = true -> sides_b ops t0 = true -> run ops t0 = Ok t -> wf t = true.
+Proof. exact history_wf_b. Qed.
+Print Assumptions C03_history_decidable.
+
+(** when a step starts with a successful ReinitIndexes the tip names are pairwise distinct *)
+Theorem C03_reinit_distinct : forall t u,
+  wf t = true -> 2 <= degree t -> reinit t = Ok u -> NoDup (leaves t).
+Proof. exact reinit_NoDup_leaves. Qed.
+Print Assumptions C03_reinit_distinct.
+
+(** a rooted tree with at least three tips is not the two-tip tree (RerootOutGroup refuses
+    fewer than three tips since the fix of the crash found by this check) *)
+Theorem C03_rooted_three_tips : forall t,
+  wf t = true -> 3 <= length (tips t) -> rooted t = true -> root_has_inner_child t = true.
+Proof. exact rooted_three_tips. Qed.
+Print Assumptions C03_rooted_three_tips.
+
+(** after any successful history the enumerations agree *)
+Theorem C03_history_enumerations : forall ops t0 t,
+  wf t0 = true -> sides ops t0 -> run ops t0 = Ok t ->
+  length (edges t) + 1 = length (nodes t) /\
+  Permutation (edges t) (internal_edges t ++ tip_edges t) /\
+  (forall p, In p (tip_edges t) -> is_tip (snd p) = true) /\
+  (forall p, In p (internal_edges t) -> is_tip (snd p) = false) /\
+  (is_tip t = false -> length (tip_edges t) = length (tips t)).
+Proof. exact history_enumerations. Qed.
+Print Assumptions C03_history_enumerations.
+
+(** ... and, when the final tree is inside the writer's domain (the quantifier of C01), the
+    Newick text written for it is read back as the same rooted ordered tree with all its
+    decorations, which is well formed and is written as the same text *)
+Theorem C03_history_text : forall ops t0 t,
+  wf t0 = true -> sides ops t0 -> run ops t0 = Ok t ->
+  wfN numericC numokC t = true ->
+  exists t', parse numericC parse_numC (write fmt_go t) = POk t' /\
+             rose_eqb (rose_of t') (rose_of t) = true /\
+             write fmt_go t' = write fmt_go t /\
+             wf t' = true.
+Proof. exact history_text. Qed.
+Print Assumptions C03_history_text.
+
+(** * the hypotheses are satisfiable: closed histories over all 19 operations, every side
+    condition checked at the state where it is needed, running to the end *)
+Definition lf (n : string) : utree := UNode n [] [None].
+Definition ed (l : Q) : einfo := mkE l nilv nilv [].
+Definition eds (l s : Q) : einfo := mkE l s nilv [].
+(** ((a:1,b:2)0.5:1,(c:1,d:1)0.75:2,e:3);  and  ((a:1,b:2)0.5:1,(c:0,d:1)0.75:2); *)
+Definition ex_start : utree :=
+  UNode "" [] [Some (eds 1 (1#2), UNode "" [] [None; Some (ed 1, lf "a"); Some (ed 2, lf "b")]);
+               Some (eds 2 (3#4), UNode "" [] [Some (ed 1, lf "c"); None; Some (ed 1, lf "d")]);
+               Some (ed 3, lf "e")].
+Definition ex_rooted : utree :=
+  UNode "" [] [Some (eds 1 (1#2), UNode "" [] [None; Some (ed 1, lf "a"); Some (ed 2, lf "b")]);
+               Some (eds 2 (3#4), UNode "" [] [Some (ed 0, lf "c"); None; Some (ed 1, lf "d")])].
+Definition ex_graft : utree := UNode "" [] [Some (ed 1, lf "x"); Some (ed 1, lf "y")].
+Definition ex_second : utree := UNode "" [] [Some (ed 1, lf "p"); Some (ed 1, lf "q")].
+Definition ex_a : list (bool * op) :=
+  [(true, OReroot 1); (true, OOutgroup false false ["c"; "d"]); (true, OPrune false ["e"]);
+   (true, OMidpoint); (true, OInsert [["a"; "a2"]]); (true, OGraft "b" ex_graft)].
+Definition ex_b : list (bool * op) :=
+  [(true, OMerge ex_second); (false, ONni 0 true); (false, ONni 1 false);
+   (true, OOutgroup true true ["p"; "q"]); (false, ORotate [0;0;1;0;1;2;0;0;0;1;0;0;1]); (false, OSort)].
+Definition ex_c : list (bool * op) :=
+  [(true, OCollapseLen 0 false false); (false, OResolve [0;1;0]); (false, ORmSingle);
+   (true, ORename "a" "z"); (false, OClone); (false, OSubtree 1)].
+Definition ex_d : list (bool * op) :=
+  [(true, OUnroot); (true, OCollapseDepth 2 2 false false); (true, OCollapseSup (7#8) false)].
+Definition ex_ok (ops : list (bool * op)) (t : utree) : bool := wf t && sides_b ops t && run_ok_b ops t.
+
+Example C03_example_a : ex_ok ex_a ex_start = true.
+Proof. vm_compute. reflexivity. Qed.
+Print Assumptions C03_example_a.
+Example C03_example_b : ex_ok ex_b ex_rooted = true.
+Proof. vm_compute. reflexivity. Qed.
+Print Assumptions C03_example_b.
+Example C03_example_c : ex_ok ex_c ex_rooted = true.
+Proof. vm_compute. reflexivity. Qed.
+Print Assumptions C03_example_c.
+Example C03_example_d : ex_ok ex_d ex_rooted = true.
+Proof. vm_compute. reflexivity. Qed.
+Print Assumptions C03_example_d.
+Example C03_example_text :
+  match run ex_a ex_start with Ok t => write fmt_go t | Err m => m end =
+  "(((a2:0,a:0):1,(x:1,y:1):2)0.75:1,(c:1,d:1)0.75:2);".
+Proof. vm_compute. reflexivity. Qed.
+Print Assumptions C03_example_text.
